@@ -152,6 +152,10 @@ def readNum (cs : Str) : Option (Str × Str) :=
 
 abbrev PV := Str → Option (J × Str)
 
+def consRes {α : Type} (a : α) : Option (List α × Str) → Option (List α × Str)
+  | some (l, r) => some (a :: l, r)
+  | none => none
+
 /-- the elements of an array after the first one was found to exist; fuel = characters left -/
 def pElems (f : PV) : Nat → Str → Option (List J × Str)
   | 0, _ => none
@@ -162,10 +166,7 @@ def pElems (f : PV) : Nat → Str → Option (List J × Str)
       match skipWs r with
       | [] => none
       | c :: r' =>
-        if c = ',' then
-          match pElems f n r' with
-          | some (vs, r'') => some (v :: vs, r'')
-          | none => none
+        if c = ',' then consRes v (pElems f n r')
         else if c = ']' then some ([v], r')
         else none
 
@@ -195,10 +196,7 @@ def pMembers (f : PV) : Nat → Str → Option (List (Str × J) × Str)
                 match skipWs r3 with
                 | [] => none
                 | c2 :: r4 =>
-                  if c2 = ',' then
-                    match pMembers f n r4 with
-                    | some (ms, r5) => some ((k, v) :: ms, r5)
-                    | none => none
+                  if c2 = ',' then consRes (k, v) (pMembers f n r4)
                   else if c2 = '}' then some ([(k, v)], r4)
                   else none
             else none
@@ -396,7 +394,7 @@ def decodeMsg (D : Defects) : J → Option WMsg
 /-- reader + enum; `lenient`: stop after the first value -/
 def decodeWith (lenient : Bool) (D : Defects) (cs : Str) : Option WMsg :=
   match readDoc lenient cs with
-  | some v => decodeMsg D v
+  | some v => decodeMsg { seqFrame := D.seqFrame, seqPayload := D.seqPayload } v
   | none => none
 
 /-- `ClientMessage::from_bytes` on a frame that is valid UTF-8: the reader is exact when the body
